@@ -82,17 +82,28 @@ def impl_builders(table, lay=0):
     return e.tolist(), np.asarray(fe).tolist(), np.asarray(npf).tolist(), int(e.shape[0])
 
 
-def impl_grid(table, lon=None, lat=None, order=0, lay=0, supplied=False):
+def make_supplied(table, idx):
+    """an edge table as a source would ship it: arbitrary order / orientation.  idx % 25 == 7: a table that does NOT
+    describe the faces' edges (one row replaced), which the code must replace by the derived one."""
+    rows = [[x for x in r if x != FILL] for r in table]
+    pairs = sorted({(min(a, b), max(a, b)) for c in rows for a, b in zip(c, c[1:] + c[:1])})
+    pairs = [list(p) if (i + idx) % 2 else [p[1], p[0]] for i, p in enumerate(pairs)]
+    k = idx % len(pairs)
+    pairs = pairs[k:] + pairs[:k]
+    if idx % 4 == 2:
+        pairs.reverse()
+    if idx % 25 == 7:
+        pairs[idx % len(pairs)] = list(pairs[(idx + 1) % len(pairs)]) if len(pairs) > 1 else [0, 0]
+    return pairs
+
+
+def impl_grid(table, lon=None, lat=None, order=0, lay=0, supplied=None):
     import uxarray as ux
     t = layout(np.array(table, dtype=np.intp), lay)
     kw = {}
     if supplied:
-        # the source ships its own edge table (arbitrary order / orientation): face_edge must index THAT table
-        rows = [[x for x in r if x != FILL] for r in table]
-        pairs = sorted({(min(a, b), max(a, b)) for c in rows for a, b in zip(c, c[1:] + c[:1])})
-        pairs = [list(p) if i % 2 else [p[1], p[0]] for i, p in enumerate(pairs)]
-        pairs = pairs[len(pairs) // 2:] + pairs[:len(pairs) // 2]
-        kw["edge_node_connectivity"] = np.array(pairs, dtype=np.intp)
+        # the source ships its own edge table: face_edge must index THAT table
+        kw["edge_node_connectivity"] = np.array(supplied, dtype=np.intp)
     n = int(max(x for r in table for x in r if x != FILL)) + 1
     if lon is None:
         lon = np.linspace(-170, 170, n)
@@ -176,15 +187,34 @@ def run_case_impl(ck, c, idx):
     try:
         ll = c.get("lonlat")
         rp = c.get("replay") or {}
-        sup = (idx % 5 == 2) and all(len(set(x for x in r if x != FILL)) == sum(1 for x in r if x != FILL) for r in t)
-        sup = rp.get("supplied_edges", sup)
+        sup = None
+        if (idx % 5 == 2) and all(len(set(x for x in r if x != FILL)) == sum(1 for x in r if x != FILL) for r in t):
+            sup = make_supplied(t, idx)
+        sup = rp.get("supplied_edges", sup) or None
         e, fe, npf, ne, g = impl_grid(t, ll[0] if ll else None, ll[1] if ll else None, order=rp.get("order", idx % 3),
                                       lay=rp.get("layout", (idx // 3) % 3), supplied=sup)
+        sup_good = True
+        if sup:
+            rows_ = [[x for x in r if x != FILL] for r in t]
+            want_ = sorted({(min(a, b), max(a, b)) for c_ in rows_ for a, b in zip(c_, c_[1:] + c_[:1])})
+            sup_good = sorted((min(a, b), max(a, b)) for a, b in sup) == want_
+            if not sup_good:
+                # a source table that does not describe the faces' edges is source data, not a derived result: only
+                # what the grid reports once face_edge_connectivity exists is judged
+                e = [list(map(int, r)) for r in np.asarray(g.edge_node_connectivity.values)]
+                ne = int(g.n_edge)
         bad = spec_check(t, e, fe, npf, ne)
         if bad:
-            ck.fail(bad, {"table": t, "level": "grid", "order": idx % 3, "layout": (idx // 3) % 3, "supplied_edges": sup}, {"level": "grid", "supplied_edges": sup},
+            ck.fail(bad, {"table": t, "level": "grid", "order": idx % 3, "layout": (idx // 3) % 3, "supplied_edges": sup}, {"level": "grid", "supplied_edges": bool(sup)},
                     detail=json.dumps({"edges": e, "face_edge": fe, "npf": npf}))
         res["grid"] = canon(e, fe, npf)
+        if sup:
+            res["sup"] = (sup, e, fe)
+            # history: the edge table read again after every derivation is the one read first
+            e2 = [list(map(int, r)) for r in np.asarray(g.edge_node_connectivity.values)]
+            if e2 != [list(r) for r in e]:
+                ck.fail("edge_table_changes_between_reads", {"table": t, "level": "grid", "supplied_edges": sup, "order": idx % 3},
+                        {"level": "grid", "supplied_edges": True}, detail=json.dumps({"first": e, "second": e2}))
         if c.get("closed") and c.get("n_node") is not None:
             used = len({x for r in t for x in r if x != FILL})
             if g.n_node - ne + g.n_face != 2 or used != g.n_node:
@@ -203,7 +233,7 @@ def run_case_impl(ck, c, idx):
             bad = spec_check(st, se, sfe, snpf, int(sub.n_edge))
             if bad:
                 ck.fail(bad, {"table": t, "level": "isel", "order": idx % 3, "layout": (idx // 3) % 3, "supplied_edges": sup,
-                              "faces": sel, "lonlat": ll}, {"level": "isel", "supplied_edges": sup},
+                              "faces": sel, "lonlat": ll}, {"level": "isel", "supplied_edges": bool(sup)},
                         detail=json.dumps({"sub_table": st, "edges": se, "face_edge": sfe, "npf": snpf}))
             ck.extra["isel_grids_checked"] = ck.extra.get("isel_grids_checked", 0) + 1
     except Exception as ex:
@@ -228,6 +258,7 @@ def main(ck):
     hist = {}
     sizes = {}
     impl_raw = {}
+    sup_cases = []
     for idx, c in enumerate(cases):
         t = c["table"]
         nontrivial = len(t) >= 2 or any(x == FILL for r in t for x in r)
@@ -239,6 +270,8 @@ def main(ck):
         res = run_case_impl(ck, c, idx)
         if "raw" in res:
             impl_raw[idx] = res["raw"]
+        if "sup" in res:
+            sup_cases.append((t, res["sup"]))
         mo = model[idx]
         if mo is not None:
             if isinstance(mo, list) and mo and mo[0] == "ERR":
@@ -256,6 +289,22 @@ def main(ck):
         if idx < 3 or (c["kind"] == "mesh" and len(ck.cov["samples"]) < 4):
             ck.sample({"kind": c["kind"], "table": [["F" if x == FILL else x for x in r] for r in t][:6],
                        "edges_impl": res.get("raw", ([],))[0][:8]})
+    # source-supplied edge tables: the model of _populate_face_edge_connectivity's keep-or-replace branch
+    # (Coq: C02_supplied_*) must agree EXACTLY (row order, orientation, numbering) with the grid
+    if ok and sup_cases:
+        mo = ck.run_model("c02_sup", [sx([len(t[0]), t, sup]) for t, (sup, e, fe) in sup_cases])
+        kept = 0
+        for (t, (sup, e, fe)), r in zip(sup_cases, mo):
+            if isinstance(r, list) and r and r[0] == "ERR":
+                ck.corr_failures.append({"case": t, "supplied": sup, "model": r})
+                continue
+            kept += int(r[0])
+            if [list(p) for p in r[1]] != [list(p) for p in e] or r[2] != fe:
+                ck.corr_failures.append({"case": t, "supplied": sup, "level": "supplied", "impl": [e, fe], "model": r})
+            if r[0] == 1 and [list(p) for p in e] != [list(p) for p in sup]:
+                ck.fail("supplied_table_not_kept", {"table": t, "level": "grid", "supplied_edges": sup}, {"level": "grid", "supplied_edges": True},
+                        detail=json.dumps({"reported": e}))
+        ck.extra["supplied_edge_tables"] = {"cases": len(sup_cases), "kept_by_model": kept, "replaced_by_model": len(sup_cases) - kept}
     # the certified checker (Coq: C02_checker_decides_spec), extracted, on the IMPLEMENTATION's outputs
     certified = 0
     if ok:
